@@ -16,6 +16,15 @@ CHECKS = {
             "exactly-once / on-time / ordering oracle is evaluated on every execution.",
             "Bounded: grid times, <=4 jobs, one event source, deviation bound 1 (quick) / 2 (thorough). CPython's FIFO "
             "ready order is taken as is.", "DESIGN.md section 4, C13"),
+    "C12": ("stateless deviation-bounded schedule exploration of the real BacktestingDispatcher on a virtual event loop, "
+            "over every timestamp pattern of 2-3 sources on a 3-value grid",
+            "Every execution of the real dispatcher for every non-decreasing timestamp sequence per source on {1,2,3} "
+            "(ties within and across sources), max_concurrent 1/2/50, with/without catch-all handlers, derived-source "
+            "pushes (now / later), a raising handler, duplicate subscriptions and a past-dated job, and every handler "
+            "suspension pattern (0/1/2 yields, external gate, all gate release orders) within the deviation bound; "
+            "exactly-once, global time order, stage order, subscription order and clock oracles on every execution.",
+            "Bounded: timestamps on a 3-value grid, <=3 sources, <=3 events per source, deviation bound 1 (quick) / 2 "
+            "(thorough). CPython's FIFO ready order is taken as is.", "DESIGN.md section 4, C12"),
 }
 NOT_YET = "check not built yet (see DESIGN.md section 7 for the build order); no claim is made"
 
